@@ -43,6 +43,29 @@ def cursorTests (path : String) : IO Unit := do
         showI (Src.StringUtil.next_utf8_codepoint_defined buf 0 (buf.length - 1)) (Src.StringUtil.next_utf8_codepoint buf 0 (buf.length - 1))
       if kind == "fracsec" then
         showB (Src.Timestamp.fractional_seconds_defined fuel buf 0) (Src.Timestamp.fractional_seconds fuel buf 0)
+      -- phase 4: functions that build a string (the output string starts as "R")
+      let hexs (r : List UInt8) : String :=
+        if r.isEmpty then "-" else String.join (r.map fun c => String.ofList [Nat.digitChar (c.toNat / 16), Nat.digitChar (c.toNat % 16)])
+      let showS (d : Bool) (o : Osmium.CxxSem.Outcome (Int × List UInt8) Unit) : IO Unit :=
+        if !d then IO.println s!"{kind} {hex} UNDEFINED" else
+        match o with
+        | .normal (i, r) _ => IO.println s!"{kind} {hex} ok {hexs r} {i}"
+        | .thrown e (i, r) => IO.println s!"{kind} {hex} {e} {hexs r} {i}"
+        | .nofuel => IO.println s!"{kind} {hex} NOFUEL"
+      if kind == "oplescaped" then
+        showS (Src.OplParserFunctions.opl_parse_escaped_defined fuel buf 0 [0x52]) (Src.OplParserFunctions.opl_parse_escaped fuel buf 0 [0x52])
+      if kind == "oplstring" then
+        showS (Src.OplParserFunctions.opl_parse_string_defined fuel buf 0 [0x52]) (Src.OplParserFunctions.opl_parse_string fuel buf 0 [0x52])
+      if kind == "cpenc" then
+        match unhex hex with
+        | [a, b1, c, d] =>
+          let cp : Int := ((a.toNat * 16777216 + b1.toNat * 65536 + c.toNat * 256 + d.toNat : Nat) : Int)
+          if !Src.StringUtil.append_codepoint_as_utf8_defined cp [0x52] then IO.println s!"cpenc {hex} UNDEFINED"
+          else match Src.StringUtil.append_codepoint_as_utf8 cp [0x52] with
+            | .normal r _ => IO.println s!"cpenc {hex} ok {hexs r} 0"
+            | .thrown e _ => IO.println s!"cpenc {hex} {e}"
+            | .nofuel => IO.println s!"cpenc {hex} NOFUEL"
+        | _ => pure ()
       if kind == "coord" then
         if !Src.Location.string_to_location_coordinate_defined 200000 buf 0 then IO.println s!"coord {hex} UNDEFINED"
         else match Src.Location.string_to_location_coordinate 200000 buf 0 with
